@@ -237,6 +237,7 @@ class Scheduler:
         self.chooser = chooser or SeqPreempt()
         self.tasks: list[Task] = []
         self.t_start = float(start_time)
+        self.last_advance_step = 0  # scheduling step at which virtual time last moved (a run that hits the step cap long after is spinning)
         self.rel = 0.0  # virtual seconds since the start of the run, kept rounded to 1 us so that equal instants coincide
         self.time_cap = time_cap
         self.step_cap = step_cap
@@ -388,6 +389,8 @@ class Scheduler:
                 self.deadlock_info = [(t.name, t.blocked_on) for t in live]
                 self._abort("time_cap")
                 return self._pick(cur)
+            if nxt > self.rel:
+                self.last_advance_step = self.step
             self.rel = max(self.rel, nxt)
         self.step += 1
         if self.step > self.step_cap:
@@ -487,6 +490,10 @@ class Scheduler:
         t.state = "blocked"
         t.pred = pred
         t.deadline = None if timeout is None else round(self.rel + timeout, 6)
+        if t.deadline is not None and t.deadline <= self.rel:
+            # a positive timeout below the clock's resolution still lets time pass (one tick): otherwise a loop of the
+            # form `while now < due: wait(due - now)` would spin for ever at one virtual instant
+            t.deadline = round(self.rel + 1e-6, 6)
         t.blocked_on = what
         self._switch(t)
         t.blocked_on = ""
